@@ -56,6 +56,92 @@ pub const MOVE_PIPES: &[Pipe] = &[Pipe::ObserveOnTick, Pipe::DelayTick];
 pub const RATE_PIPES: &[Pipe] = &[Pipe::BufferTime, Pipe::BufferCountTime, Pipe::SampleTick, Pipe::ThrottleAll, Pipe::ThrottleLead, Pipe::ThrottleTailTick, Pipe::DebounceTick];
 
 thread_local! {
+  /// source events in the order in which the feeding calls completed
+  static EMITTED: RefCell<Vec<(usize, Ev)>> = RefCell::new(vec![]);
+}
+
+/// The order-insensitive part of C07 / C09 for a single-input pipeline, used where whole-operation serialisability
+/// is too coarse (three or more operations per thread: a timer firing *during* a next() call has no serial
+/// counterpart although nothing is lost, duplicated or reordered): the output's items, buffers flattened, are
+/// source items in emission order, each at most once; a terminal is the source's; after a completion nothing the
+/// operator owes is missing (buffers and the scheduler-moving operators: every item; debounce and trailing
+/// throttle: the last item).
+fn generic_rate_ok(p: Pipe, got: &[Ev], emitted: &[(usize, Ev)], cut: bool) -> bool {
+  let mut src_items: Vec<Val> = vec![];
+  let mut src_term: Option<Ev> = None;
+  for (_, ev) in emitted {
+    match ev {
+      Ev::Next(v) if src_term.is_none() => src_items.push(v.clone()),
+      Ev::Next(_) => {}
+      t => {
+        if src_term.is_none() {
+          src_term = Some(t.clone())
+        }
+      }
+    }
+  }
+  let mut out_items: Vec<Val> = vec![];
+  let mut out_term: Option<Ev> = None;
+  for g in got {
+    match g {
+      Ev::Next(Val::L(l)) if out_term.is_none() => {
+        if l.is_empty() {
+          return false;
+        }
+        out_items.extend(l.iter().cloned())
+      }
+      Ev::Next(v) if out_term.is_none() => out_items.push(v.clone()),
+      Ev::Next(_) => return false,
+      t => {
+        if out_term.is_some() {
+          return false;
+        }
+        out_term = Some(t.clone())
+      }
+    }
+  }
+  // subsequence in order, each source item used at most once
+  let mut pos = 0;
+  let mut used: Vec<usize> = vec![];
+  for o in &out_items {
+    let mut found = false;
+    while pos < src_items.len() {
+      let t = o.eq_t(&src_items[pos]);
+      pos += 1;
+      if e::valid(t) {
+        used.push(pos - 1);
+        found = true;
+        break;
+      }
+    }
+    if !found {
+      return false;
+    }
+  }
+  match (&out_term, &src_term) {
+    (None, _) => {}
+    (Some(Ev::Complete), Some(Ev::Complete)) => {}
+    (Some(Ev::Err(a)), Some(Ev::Err(b))) => {
+      if !e::valid(a.eq_t(b)) {
+        return false;
+      }
+    }
+    _ => return false,
+  }
+  if !cut && matches!(src_term, Some(Ev::Complete)) && matches!(out_term, Some(Ev::Complete)) {
+    let all = matches!(p, Pipe::BufferTime | Pipe::BufferCountTime | Pipe::ObserveOnTick | Pipe::DelayTick);
+    let last = matches!(p, Pipe::DebounceTick | Pipe::ThrottleTailTick | Pipe::ThrottleAll);
+    if all && used.len() != src_items.len() {
+      return false;
+    }
+    if last && !src_items.is_empty() && used.last() != Some(&(src_items.len() - 1)) {
+      return false;
+    }
+  }
+  true
+}
+
+thread_local! {
   /// is_closed() of the handle the last `build` returned (None once it has been consumed by unsubscribe())
   static CLOSED_Q: RefCell<Option<Rc<dyn Fn() -> Option<bool>>>> = RefCell::new(None);
 }
@@ -532,7 +618,11 @@ fn make_closure(rig: &Rig, op: TOp, late: Rc<RefCell<Vec<Probe>>>, key_after_uns
       }
     }
     TOp::Extra(i) => (extras[i])(),
-    TOp::Feed(i, ev) => feed(i, &ev),
+    TOp::Feed(i, ev) => {
+      feed(i, &ev);
+      // the source's cell serialises the calls: completion order is the order of emission
+      EMITTED.with(|x| x.borrow_mut().push((i, ev.clone())));
+    }
     TOp::Unsub => {
       let u = unsub.borrow_mut().take();
       if let Some(u) = u {
@@ -560,6 +650,7 @@ fn c10_preempt(pipes: &[Pipe], nops: usize, max_preempt: u32) {
 }
 
 fn c10_preempt_x(pipes: &[Pipe], nops: usize, max_preempt: u32, sample_closed: bool) {
+  EMITTED.with(|x| x.borrow_mut().clear());
   let p = pipes[e::choose(pipes.len() as u32) as usize];
   let rig = build(p);
   e::cfg_begin(&format!("{:?}", p));
@@ -643,6 +734,7 @@ fn c10_preempt_x(pipes: &[Pipe], nops: usize, max_preempt: u32, sample_closed: b
   if !matches!(p, Pipe::FlatMapIter) && !script.iter().flatten().any(|o| matches!(o, TOp::Subscribe)) {
     let got: Vec<Vec<Ev>> = rig.probes.iter().map(|q| q.events()).collect();
     let got_logs: Vec<Vec<world::Rec>> = rig.probes.iter().map(|q| q.log()).collect();
+    let emitted_concurrent: Vec<(usize, Ev)> = EMITTED.with(|x| x.borrow().clone());
     let unsub_tick = world::counter(95) as u64;
     drop(rig);
     let orders = interleavings(script[0].len(), script[1].len());
@@ -730,6 +822,12 @@ fn c10_preempt_x(pipes: &[Pipe], nops: usize, max_preempt: u32, sample_closed: b
         }
         ok = true;
         break;
+      }
+    }
+    if !ok && nops >= 3 && (RATE_PIPES.contains(&p) || MOVE_PIPES.contains(&p)) {
+      ok = generic_rate_ok(p, &got[0], &emitted_concurrent, unsub_tick > 0);
+      if ok {
+        e::cover("accepted-by-the-order-insensitive-rules-only");
       }
     }
     if !ok {
